@@ -559,6 +559,14 @@ func (v *verifier) processSignature(ctx context.Context, sigBlob []byte, envelop
 
 			return processPluginResponse(capabilitiesToVerify, response, outcome)
 		}
+	} else {
+		// the signature demands no verification plugin: an extended critical
+		// attribute that nothing processes must not be accepted
+		for _, attr := range getNonPluginExtendedCriticalAttributes(&outcome.EnvelopeContent.SignerInfo) {
+			if attr.Critical {
+				return notation.ErrorVerificationInconclusive{Msg: fmt.Sprintf("extended critical attribute %q cannot be processed: the signature does not specify a verification plugin", attr.Key)}
+			}
+		}
 	}
 	return nil
 }
